@@ -408,6 +408,16 @@ func TestC04_WithdrawalSlice(t *testing.T) {
 					tx.AtZero = rapid.IntRange(0, 5).Draw(t, "atZero") == 0
 				}
 			}
+			// one or two scripted endings: withdraw, process, fee-bump, then a finalisation that names one voted
+			// candidate over the block and proof of the other one (or a genuine one)
+			for k, n := 0, rapid.IntRange(1, 2).Draw(t, "endings"); k < n; k++ {
+				pr := rapid.IntRange(0, 40).Draw(t, "endPid")
+				c.Blocks = append(c.Blocks,
+					WdBlock{DT: 5, Withdraws: []WdReq{{AddrKind: 0, Amount: 400_000, Price: 40}}},
+					WdBlock{DT: 5, Tx: &WdTx{Kind: "process", Refs: []int{rapid.IntRange(0, 40).Draw(t, "endRef")}, OutMut: []int{0}, Bias: true}},
+					WdBlock{DT: 5, Tx: &WdTx{Kind: "replace", PidRef: pr, FeeDelta: 1, Bias: true}},
+					WdBlock{DT: 5, Tx: &WdTx{Kind: "finalize", PidRef: pr, Cand: rapid.IntRange(0, 1).Draw(t, "endCand"), Proof: rapid.SampledFrom([]int{3, 3, 0}).Draw(t, "endProof")}})
+			}
 			return c
 		},
 		Run: func(c WdCase) Outcome {
